@@ -17,10 +17,10 @@ def plan(tier, seed):
         for v in vs:
             for k in range(nt):
                 units.append(dict(hfile='rename.py', fname='c14_rename', args=(v, k, 1 + (k + di) % 2)))
-                units.append(dict(hfile='rename.py', fname='c14_args', args=(v, k, ['reverse', 'prefix', 'tail', 'rotate', 'pop-insert', 'assign-new'][(k + di) % 6])))
+                units.append(dict(hfile='rename.py', fname='c14_args', args=(v, k, ['reverse', 'prefix', 'tail', 'rotate', 'pop-insert', 'assign-new', 'reassign-same'][(k + di) % 7])))
                 if not q:
-                    units.append(dict(hfile='rename.py', fname='c14_args', args=(v, k, ['reverse', 'prefix', 'tail', 'rotate', 'pop-insert', 'assign-new'][(k + di + 3) % 6])))
-        for v in cover.variants(d, seed * 7919 + di)[:1]:
+                    units.append(dict(hfile='rename.py', fname='c14_args', args=(v, k, ['reverse', 'prefix', 'tail', 'rotate', 'pop-insert', 'assign-new', 'reassign-same'][(k + di + 3) % 7])))
+        for v in cover.variants(d, seed * 7919 + di, cap=2)[:1]:
             for k in range(nt):
                 units.append(dict(hfile='rename.py', fname='c14_string', args=(v, k, 1 + (k + di) % 2)))
     info['variants'] = len(units)
